@@ -106,6 +106,20 @@ CopyB_row == << W(5, "x"), W(-5, "y"),
 SizeMore == CopyA \o << [op |-> "gate", q |-> [l |-> 0], w |-> <<"x">>] >>
 SizeLess == << W(5, "x"), [op |-> "gate", q |-> [l |-> 1, c |-> -5], w |-> <<"x", "x">>] >>
 
+\* ---- public-input rows: statements about public values --------------------
+GPubSum ==
+  << [op |-> "public", v |-> 2, out |-> "a"], [op |-> "public", v |-> 3, out |-> "b"],
+     [op |-> "public", v |-> 5, out |-> "c"],
+     [op |-> "gate", q |-> [l |-> 1, r |-> 1, o |-> -1], w |-> <<"a", "b", "c">>],
+     [op |-> "public", v |-> 1, out |-> "bit"], [op |-> "boolean", a |-> "bit"],
+     W(4, "x"), W(6, "y"),
+     [op |-> "gate_add", q |-> [l |-> 1, r |-> 1], w |-> <<"x", "y">>, pi |-> 100, out |-> "s"],
+     [op |-> "assert_equal_constant", a |-> "s", c |-> 110],
+     [op |-> "assert_equal_constant", a |-> "x", c |-> 1, pi |-> 3],
+     [op |-> "gate", q |-> [m |-> 1, c |-> -24], w |-> <<"x", "y">>],
+     [op |-> "evaluated_output", q |-> [m |-> 2, l |-> 1, o |-> 3, c |-> 1], w |-> <<"x", "y">>, pi |-> 9, out |-> "e"],
+     [op |-> "gate", q |-> [l |-> 1, r |-> 3], w |-> <<"x", "e">>, pi |-> 58] >>
+
 Quick == Tier = "quick"
 Sample(n) == [mode |-> "sample", n |-> n]
 Each == [mode |-> "each"]
@@ -133,6 +147,8 @@ STrunc(n) == Scn("truncate", GTruncate(n, 1000003), Pert(TRUE))
 SDecomp(n) == Scn("decomposition", GDecomp(n, 77), Pert(TRUE))
 SMulGen(s) == Scn("mul-generator", GMulGen(s), Pert(FALSE))
 SWrap(k) == Scn("wrap", GWrap(k), Sample(6))
+\* one wire position wired to a fresh witness (harness mode "rewire")
+SRew(name, prog, n) == Scn("rewire-" \o name, prog, [mode |-> "rewire", n |-> IF Quick THEN n ELSE 4 * n])
 
 Scenarios ==
      << Scn("arith", GArith, Each), Scn("select", GSelect, Each),
@@ -147,6 +163,10 @@ Scenarios ==
   \o Map(<<0, 12345>>, SMulGen)
   \o << Scn("mul-point", GMulPoint(6), IF Quick THEN Sample(4) ELSE Sample(32)) >>
   \o Map(<<8, 16, 32>>, SWrap)
+  \o << SRew("pubsum", GPubSum, 12), SRew("arith", GArith, 12), SRew("select", GSelect, 8),
+        SRew("points", GPoints, 12), SRew("range", GRange(8, 201), 8),
+        SRew("logic", GLogic(3, TRUE, 45, 27), 8), SRew("mul-generator", GMulGen(12345), 8),
+        SRew("multi", GMulti, 8) >>
   \o << Scn2("copy-broken", CopyA, CopyB_broken), Scn2("copy-equal", CopyA, CopyB_equal),
         Scn2("copy-row", CopyA, CopyB_row), Scn2("size-more", CopyA, SizeMore),
         Scn2("size-less", CopyA, SizeLess) >>
